@@ -108,10 +108,54 @@ def lastFrom (lit s : List Char) : Nat → Option Nat
 inductive NameResult where
   | err                                  -- the regexp does not match ("invalid … path format")
   | unsupported                          -- a greedy group would contain '\n': not modelled
+  | panic                                -- regexp.MustCompile rejects a pattern that is not valid UTF-8
   | ok (name : List Char)
   deriving DecidableEq, Repr
 
 def hasNewline (s : List Char) : Bool := s.any (· == '\n')
+
+/-! ### UTF-8 (strings are byte lists: one `Char` per byte; the regexp package works on runes) -/
+
+def isCont (c : Char) : Bool := decide (128 ≤ c.toNat) && decide (c.toNat ≤ 191)
+
+/-- number of bytes utf8.DecodeRune consumes at the head of `s` (1 for an invalid byte) -/
+def runeWidth : List Char → Nat
+  | [] => 0
+  | a :: rest =>
+    let n := a.toNat
+    if n < 128 then 1
+    else if 194 ≤ n ∧ n ≤ 223 then
+      (match rest with | b :: _ => if isCont b then 2 else 1 | [] => 1)
+    else if 224 ≤ n ∧ n ≤ 239 then
+      (match rest with
+       | b :: c :: _ =>
+         let lo := if n = 224 then 160 else 128
+         let hi := if n = 237 then 159 else 191
+         if lo ≤ b.toNat ∧ b.toNat ≤ hi ∧ isCont c then 3 else 1
+       | _ => 1)
+    else if 240 ≤ n ∧ n ≤ 244 then
+      (match rest with
+       | b :: c :: d :: _ =>
+         let lo := if n = 240 then 144 else 128
+         let hi := if n = 244 then 143 else 191
+         if lo ≤ b.toNat ∧ b.toNat ≤ hi ∧ isCont c ∧ isCont d then 4 else 1
+       | _ => 1)
+    else 1
+
+def validUTF8Aux : Nat → List Char → Bool
+  | 0, s => s.isEmpty
+  | fuel + 1, s =>
+    match s with
+    | [] => true
+    | a :: _ => if a.toNat ≥ 128 ∧ runeWidth s = 1 then false else validUTF8Aux fuel (s.drop (runeWidth s))
+
+/-- utf8.ValidString -/
+def validUTF8 (s : List Char) : Bool := validUTF8Aux s.length s
+
+/-- the first two bytes of a name are one two-byte character (so `name[:2]` is a single rune) -/
+def twoByteHead : List Char → Bool
+  | a :: b :: _ => decide (194 ≤ a.toNat) && decide (a.toNat ≤ 223) && isCont b
+  | _ => false
 
 /-- `(.+) lit1 (.+) lit2` against `r` (greedy, not anchored at the end): the two groups -/
 def twoGroups (lit1 lit2 r : List Char) : Option (List Char × List Char) :=
@@ -146,19 +190,27 @@ def shardLit2 : List Char := '/' :: dataFile
 /-- DockerTagPather.NameFromBlobPath -/
 def tagName (root bp : List Char) : NameResult :=
   let lit0 := tagLit0 (basePath .tag root)
+  if !validUTF8 (basePath .tag root) then .panic else
   match firstSuffix (fun s => if isPrefixOf lit0 s then twoGroups tagLit1 tagLit2 (s.drop lit0.length) else none) bp with
   | none => .err
   | some (repo, tag) => if hasNewline repo || hasNewline tag then .unsupported else .ok (repo ++ ':' :: tag)
+
+/-- one `.` of the regexp: a rune that is not a newline -/
+def dropRune (s : List Char) : Option (List Char) :=
+  match s with
+  | [] => none
+  | a :: _ => if a == '\n' then none else some (s.drop (runeWidth s))
 
 /-- ShardedDockerBlobPather.NameFromBlobPath -/
 def shardName (root bp : List Char) : NameResult :=
   let lit0 := shardLit0 (basePath .shard root)
   let tryAt (s : List Char) : Option (List Char) :=
     if isPrefixOf lit0 s then
-      match s.drop lit0.length with
-      | a :: b :: '/' :: r => if a == '\n' || b == '\n' then none else oneGroup shardLit2 r
+      match (dropRune (s.drop lit0.length)).bind dropRune with
+      | some ('/' :: r) => oneGroup shardLit2 r
       | _ => none
     else none
+  if !validUTF8 (basePath .shard root) then .panic else
   match firstSuffix tryAt bp with
   | none => .err
   | some n => if hasNewline n then .unsupported else .ok n
@@ -199,8 +251,12 @@ def validRepo (r : List Char) : Bool := cleanRel r && !r.contains ':' && !hasNew
 def validTag (t : List Char) : Bool :=
   t != [] && t != dot && t != dotdot && !t.contains '/' && !t.contains ':' && !hasNewline t
 
-def validShardName (n : List Char) : Bool :=
+/-- what the property asks of a blob name (the real names are hex digests) -/
+def validShardNameBytes (n : List Char) : Bool :=
   decide (n.length > 2) && !n.contains '/' && !hasNewline n && n.take 2 != dotdot
+
+/-- … restricted to the names the code handles: `name[:2]` must be two runes (known finding shard-nonascii-name) -/
+def validShardName (n : List Char) : Bool := validShardNameBytes n && !twoByteHead n
 
 def validIdentName (n : List Char) : Bool := cleanRel n
 
